@@ -102,7 +102,7 @@ def r04_1(ctx: Ctx):
 def r04_2(ctx: Ctx):
     """R04.2 append-only histories (R02.8): the maximum over a growing multiset never decreases."""
     out = []
-    for o in c02.r02_8(ctx):
+    for o in c02.r02_8(ctx, growth_is_harmless=True):
         o.rule = "R04.2"
         out.append(o)
     return out
@@ -111,7 +111,7 @@ def r04_2(ctx: Ctx):
 def r04_3(ctx: Ctx):
     """R04.3 the order behind max() is Individual.__lt__ -> problem.worse_than with the tabled polarity (R13.4, R13.2)."""
     out = []
-    for o in c13.r13_4(ctx):
+    for o in c13.r13_4(ctx, with_equivalence=True):
         o.rule = "R04.3"
         out.append(o)
     for o in c13.r13_2(ctx):
